@@ -207,6 +207,47 @@ def op_field_sweep(st, hid, seed, with_keys=True, max_sigs=60):
                 viol.append({"class": "key-collision:" + sig,
                              "handles": [hid], "detail": "field sweep"})
         del m
+    # derive sweep: for ONE node of every taggable kind present, an object
+    # derived through the public API (tagged) from the node AFTER it was hashed
+    # and keyed must equal -- in ==, hash() and key -- the same derivation from
+    # a pristine copy of the node (no cached hash, no cached digest)
+    from pytools.tag import Taggable
+    from . import htags
+    by_type: dict = {}
+    for v in walker.pytato_nodes(root):
+        if isinstance(v, Taggable):
+            by_type.setdefault(type(v).__name__, []).append(v)
+    tag = htags.HTagB(61 + seed % 3)
+    for tname in sorted(by_type):
+        o = by_type[tname][rng.randrange(len(by_type[tname]))]
+        try:
+            hash(o)
+            if with_keys:
+                kb(o)
+            new = o.tagged(tag)
+            twin = pickle.loads(pickle.dumps(
+                o, protocol=pickle.HIGHEST_PROTOCOL)).tagged(tag)
+            same = walker.canon_key(new, "identity") \
+                == walker.canon_key(twin, "identity")
+            e = bool(new == twin)
+            hn, ht = hash(new), hash(twin)
+            kn, kt = (kb(new), st.key_builder()(twin)) if with_keys \
+                else (None, None)
+        except Exception:  # noqa: BLE001
+            continue
+        cnt["derive_sweep_objects"] = cnt.get("derive_sweep_objects", 0) + 1
+        if not same:
+            continue        # (identity semantics of wrapped data: not comparable)
+        if not e:
+            viol.append({"class": "same-structure-but-unequal:derived-" + tname,
+                         "handles": [hid], "detail": "derive sweep"})
+        elif hn != ht:
+            viol.append({"class": "equal-but-hash-differs:derived-" + tname,
+                         "handles": [hid], "detail": "derive sweep: tagged() "
+                         "after hash() vs tagged() on a pristine copy"})
+        if with_keys and kn != kt:
+            viol.append({"class": "same-structure-but-key-differs",
+                         "handles": [hid], "detail": "derive sweep: " + tname})
     return {"violations": viol[:8], "counters": cnt, "sigs": sig_seen}
 
 
